@@ -244,15 +244,15 @@ open Verif.Model.Lang Verif.Model.Lang.VM in
 `runVM (compile p) = run p` on a fragment.  Let `p` compile to the table `tbl` and satisfy the decidable
 side conditions `progOk`: no struct declarations; every function has at most one parameter, its
 statements are those of `simulation_stmt_partial` where every declaration value, assigned value,
-returned value and expression statement is call-free or *one invocation with call-free arguments*
-(`simpleE`: the built-ins `log`, `assert`, `panic` and user functions, recursion included), conditions
-are call-free, no `break`/`continue` outside a loop, and the compiled body has no unresolved loop
+returned value, expression statement and `if`/`while` condition is call-free or *one invocation with
+call-free arguments* (`simpleE`: the built-ins `log`, `assert`, `panic` and user functions, recursion
+included), no `break`/`continue` outside a loop, and the compiled body has no unresolved loop
 placeholder.  If the evaluator's `run p n` yields the value `v` with log trace `tr`, then the machine
 `runVM tbl m`, for some fuel `m`, yields the same value `v` with the same trace `tr`: every call runs in
 an activation of its own (`Invoke` binds the boxed argument to parameter slot 0, `Return`/`ReturnValue`
 pops it), the log lines of all activations are concatenated in the same order.
 Missing for `C34_simulation`: error and out-of-fuel outcomes of whole programs (error case proved only
-for call-free expressions), invocations nested inside operands / arguments / conditions, `??`,
+for call-free expressions), invocations nested inside operands / arguments, `??`,
 functions with two or more parameters (the model compiler lists parameter slots in reverse scope
 order; relating them needs a non-positional base case of `Rel`), the converse direction, L1/L2. -/
 theorem simulation_call_partial (p : Program) (tbl : Table) (hc : compile p = some tbl) (hok : progOk p = true)
@@ -261,8 +261,8 @@ theorem simulation_call_partial (p : Program) (tbl : Table) (hc : compile p = so
   sim_program p tbl (compile_tableOk p tbl hc hok) n v s1 tr h
 
 open Verif.Model.Lang Verif.Model.Lang.VM in
--- non-vacuity: `fun f(x: Int): Int { log(x); return x + 1 }`
--- `fun main(): Int { var i = 0; while i < 2 { i = f(i) }; log(i); return i }` compiles, satisfies the
+-- non-vacuity: `fun f(x: Int): Int { log(x); return x + 1 }`, `fun small(x: Int): Bool { return x < 2 }`,
+-- `fun main(): Int { var i = 0; while small(i) { i = f(i) }; log(i); return i }` compiles, satisfies the
 -- side conditions, and the evaluator returns 2 with the trace "0", "1", "2" (three activations log)
 example : (compile exProg).isSome = true ∧ progOk exProg = true ∧
     (match (run exProg 40).out with | .ok (.int _ 2) => true | _ => false) = true ∧
